@@ -24,16 +24,6 @@ Proof.
 Qed.
 
 (* ---- the split is a partition of the accepted text ---- *)
-Definition exp_shape (et : str) (e : option str) : Prop :=
-  (e = None /\ et = []) \/
-  (exists pc sg ds, et = pc :: sg ++ ds /\ (pc = 112 \/ pc = 80) /\ (sg = [] \/ sg = [45] \/ sg = [43]) /\ ds <> [] /\
-                    forallb is_digit ds = true /\ e = Some (sg ++ ds)).
-Definition mant_shape (isdig : Z -> bool) (mt int : str) (frac : option str) : Prop :=
-  (int <> [] /\ forallb isdig int = true /\ mt = int /\ frac = None) \/
-  (exists f, int <> [] /\ forallb isdig int = true /\ forallb isdig f = true /\ mt = int ++ 46 :: f /\
-             frac = Some (if nonempty f then f else [48])) \/
-  (exists f, f <> [] /\ forallb isdig f = true /\ mt = 46 :: f /\ int = [48] /\ frac = Some f).
-
 Lemma nonempty_spec (s : str) : nonempty s = true <-> s <> [].
 Proof. destruct s; cbn; split; congruence. Qed.
 
